@@ -260,6 +260,7 @@ def _run(ctx, eff, own_tables, watch):
 
     constructors(ctx)
     array_functions(ctx)
+    c06_wide.kernel_drive(ctx, watch)
     c06_wide.constructors_by_inspection(ctx, watch)
     c06_wide.functions_by_inspection(ctx)
     exemptions(ctx, eff)
